@@ -27,13 +27,13 @@ Theorem lru_refuted_keyerror :
 Proof. exists cfg_m1, w_f3_keyerror, (Resume 1). vm_compute. auto. Qed.
 
 (* F3(b): the evicted in-flight computation and the evicting one both complete: two results with maxsize = 1
-   (C20_bounded without no_inflight_eviction) *)
+   while currsize = 1 (C20_bounded and C20_count_exact without no_inflight_eviction) *)
 Definition w_f3_exceeds :=
   [Call 0 0; Call 2 2; WrappedReturns 0 1; Resume 0; WrappedReturns 2 2; Resume 2].
 Theorem lru_refuted_exceeds :
   exists cf ops m, maxsize cf = Some m /\ fl (run cf ops) = only_inflight /\
-    m < length (filter (fun x => negb (is_place (se x))) (dict (run cf ops))).
-Proof. exists cfg_m1, w_f3_exceeds, 1. vm_compute. auto. Qed.
+    m < length (filter (fun x => negb (is_place (se x))) (dict (run cf ops))) /\ currsize (run cf ops) = 1%Z.
+Proof. exists cfg_m1, w_f3_exceeds, 1. vm_compute. auto 8. Qed.
 
 (* F3(c): the in-flight placeholder of key 0 is evicted by the miss on key 1; a third caller of key 0 finds no
    entry, installs a new placeholder and runs: two executions for key 0 (C20_single_flight without
@@ -330,8 +330,8 @@ Example ex_reread_ttl :
 Proof. vm_compute. auto. Qed.
 
 (* the new ops without any finding pattern: cache_clear() and a new loop at a quiet moment with nothing counted,
-   a call in a cancelled scope that joins a flight (its wait is cancelled at once), a call in a cancelled scope
-   that is served from the cache *)
+   a call in an already cancelled scope that finds a flight in progress (it is cancelled at the lock entry without
+   ever queueing on the lock), a call in an already cancelled scope that is served from the cache *)
 Example ex_benign_new_ops :
   let ops := [Call 0 0; CallX 1 0; Resume 1; WrappedReturns 0 5; Resume 0; CallX 1 0; Clear; NewLoop;
               Call 0 0; WrappedReturns 0 6; Resume 0; Call 1 0] in
